@@ -216,10 +216,12 @@ impl FindScenario {
     pub fn gen_ambient(&mut self, rng: &mut crate::rng::Rng) {
         let env = crate::ambient::Ambient::gen_env(rng, 6);
         let tty = rng.chance(1, 10);
+        let closed_pipe = !tty && rng.chance(1, 12);
         if self.env.is_none() && self.rlimit_stack.is_none() {
             self.ambient.env = env;
         }
         self.ambient.stdout_tty = tty;
+        self.ambient.stdout_closed_pipe = closed_pipe;
     }
 }
 
@@ -721,5 +723,8 @@ pub fn account_find(obs: &FindObs, rep: &mut crate::prop::Report) {
     }
     if obs.ambient.nofile_headroom.is_some() {
         rep.probe("low_descriptor_limit");
+    }
+    if obs.ambient.stdout_closed_pipe {
+        rep.probe("descriptor_1_is_a_pipe_nobody_reads");
     }
 }
